@@ -285,7 +285,7 @@ CHECKS = {
          "input_failed_starts": 20}, assumptions=KERNEL_TRUST),
     "C04": scen_check(
         "eng_fault", "fault_enumeration",
-        "phase 1 traces a fault-free start of each of 16 option scenarios and reads off every libc call site (side, function, "
+        "phase 1 traces a fault-free start of each of 24 option scenarios (redirect families, input, working directory, environment, nonblocking, deadline, fork mode, relative program, caller without standard streams, own descriptors as handles, deep working directory) and reads off every libc call site (side, function, "
         "index) on both sides of fork; phase 2 injects one plausible errno (plus EINTR where interruptible) at every site, and "
         "pairs of sites (quick: 130 sampled pairs per scenario, thorough: 2600); plus natural causes (missing/non-executable/"
         "directory/dangling-interpreter/over-long/empty program, bad working directory, unusable redirect path, closed handle, "
